@@ -895,7 +895,7 @@ def snep_serve(sx, lens, miu_s2c, max_len):
     return [len(m) for m in link.sent['s']]
 
 
-def snep_client(sx, op, lens, end, accept):
+def snep_client(sx, op, lens, end, accept, reqlen=3):
     """SnepClient.put_octets / get_octets (send_request, recv_response) with a
     server that answers with arbitrary fragments"""
     nfc.snep.client.SnepError.strerr = envp.SymKeyDict(sx, SNEP_STRERR)
@@ -919,12 +919,18 @@ def snep_client(sx, op, lens, end, accept):
     res = []
 
     def body():
+        # reqlen above the send MIU (128): the request is fragmented and the
+        # client waits for the server's answer to the first fragment
+        request = b"\xd0\x00\x00" if reqlen == 3 else bytes(bytearray(
+            (0xC0 + 7 * i) & 0xFF for i in range(reqlen)))
+        if reqlen > 128:
+            sx.reach("snep:client-request-fragmented")
         if op == "put":
             res.append(guarded(sx, "snep.client.put_octets", allowed,
-                               client.put_octets, b"\xd0\x00\x00", 0.5))
+                               client.put_octets, request, 0.5))
         else:
             res.append(guarded(sx, "snep.client.get_octets", allowed,
-                               client.get_octets, b"\xd0\x00\x00", 0.5))
+                               client.get_octets, request, 0.5))
         link.finish()
     drive(sx, "snep.client", link, body)
     st, r = res[0]
@@ -1690,6 +1696,14 @@ def partitions(tier):
                 add("snep-cli:%s:%s:%s" % (op, lname(lens), end),
                     "snep_client", op=op, lens=lens, end=end,
                     accept="sym" if op == "get" else "default")
+    # a request of several fragments: what the server says (or does not say)
+    # after the first one
+    for op in ("put", "get"):
+        for lens in ([], [0], [5], [6], [6, 6], [7]):
+            for end in ("close", "silent"):
+                add("snep-cli-frag:%s:%s:%s" % (op, lname(lens), end),
+                    "snep_client", op=op, lens=lens, end=end, reqlen=300,
+                    accept="sym" if op == "get" else "default")
     HL = [[0], [1], [3], [2, 2], [0, 1, 0], [1, 1, 1], [0, 0], [0, 2], [2, 0], [1, 0, 2]] + \
         ([] if quick else [[4, 4], [1, 1, 1, 1], [2, 0, 0, 1]])
     for i, group in enumerate(chunks(HL, 3)):
@@ -1757,7 +1771,7 @@ def partitions(tier):
     return P
 
 
-MUST_REACH = ["window-flood:flooded", "window-flood:application-read", "pdu:decode-error", "pdu:decoded", "pdu:nested-agf-done",
+MUST_REACH = ["snep:client-request-fragmented", "window-flood:flooded", "window-flood:application-read", "pdu:decode-error", "pdu:decoded", "pdu:nested-agf-done",
               "dep:pdu-protocol-error", "dep:pdu-decoded", "dep:pdu-not-mine",
               "dep:frame-error", "dep:frame-decoded",
               "dep:initiator-exchanged", "dep:initiator-exchange-error",
